@@ -15,7 +15,8 @@ RULE = (
     "sample numbers to list positions (n!), every size vector 0 <= n_c <= #cards listing c; for each the real "
     "consistent_sampling is compared with the reference (per contest the first n_c cards of its own sample-number order; "
     "union in sample-number order; thresholds; sampled flags) and, through prep_comparison_sample + mvrs_to_data with a "
-    "recording overstatement assorter, the cards that feed each contest's assertion must be exactly those n_c cards in "
+    "recording overstatement assorter (manual records: copies of the CVR, unfindable cards and cards that do not list the "
+    "CVR's contests, by list position), the cards that feed each contest's assertion must be exactly those n_c cards in "
     "order.  Every case is re-run with phantom flags and vote contents changed (selection must not move).  "
     "Plus lists of 40/90/150/1200 cards in which the second contest is on every 7th/12th/40th/400th card only.  assign_sample_nums is compared with an independent SHA-256 stream for a seed menu.  Non-trivial = case in which a "
     "card is skipped or serves two contests; distinct = distinct (styles, order, sizes, selection)"
@@ -61,7 +62,11 @@ def run_real(ids, styles, nums, sizes, variant=0, data=False):
     if data:
         obs["data"] = {}
         cvr_sample = [cards[i] for i in sel]
-        mvr_sample = [CVR(id=c.id, votes={k: dict(v) for k, v in c.votes.items()}, phantom=False) for c in cvr_sample]
+        # manual records: a copy of the CVR, a card that cannot be found, or a card that turns out not to list the CVR's
+        # contests -- which cards feed a contest's assertions is decided by the CVRs alone
+        mvr_sample = [CVR(id=cards[i].id, votes={k: dict(v) for k, v in cards[i].votes.items()}, phantom=False) if i % 3 == 0 else
+                      (CVR(id=cards[i].id, votes={}, phantom=True) if i % 3 == 1 else CVR(id=cards[i].id, votes={"unlisted": {"A": True}}, phantom=False))
+                      for i in sel]
         sample_order = {cards[i].id: {"selection_order": pos, "serial": i + 1} for pos, i in enumerate(sel)}
         cvr_sample.reverse()  # arrive in some other order; prep_comparison_sample must restore selection order
         mvr_sample = mvr_sample[1:] + mvr_sample[:1]
